@@ -50,9 +50,10 @@ type Fault struct {
 
 // Choices are the AMF-side decisions of a scenario, all drawn from the scenario PRNG.
 type Choices struct {
-	SetupReqLen     int // 0 = as it comes; else the exact size in octets of every PDU SESSION RESOURCE SETUP REQUEST
-	RejectSessionOf int // index+1 of the UE whose PDU session establishment the SMF refuses (0: none), TS 24.501 6.4.1.4
-	NGSetupRespLen  int // 0 = as it comes; else the exact size in octets of the NG SETUP RESPONSE
+	AfterRegDelay   time.Duration // the AMF-initiated message after Registration Complete is sent this much later, while the AMF keeps serving the association
+	SetupReqLen     int           // 0 = as it comes; else the exact size in octets of every PDU SESSION RESOURCE SETUP REQUEST
+	RejectSessionOf int           // index+1 of the UE whose PDU session establishment the SMF refuses (0: none), TS 24.501 6.4.1.4
+	NGSetupRespLen  int           // 0 = as it comes; else the exact size in octets of the NG SETUP RESPONSE
 	R               *rand.Rand
 	AmfIDs          []int64 // per UE index (cycled)
 	NgKSI           byte
@@ -1017,6 +1018,19 @@ func (a *AMF) maybeRegistered(ue *ueCtx) {
 		return
 	}
 	cuc := []byte{0x7e, 0x00, 0x54, 0x43, 0x05, 0x80, 0x41, 0x4d, 0x46, 0x31}
+	if d := a.Ch.AfterRegDelay; d > 0 {
+		// an independent AMF-initiated procedure may start any time: the command goes out later, from a timer, and in the
+		// meantime the AMF answers whatever else arrives on the association
+		a.observe("after-registration-message-sent-late")
+		go func() {
+			time.Sleep(d)
+			a.mu.Lock()
+			defer a.mu.Unlock()
+			prot, c := a.protectDL(ue, 2, cuc)
+			a.downNAS(ue, prot, "ConfigurationUpdateCommand", "after-registration-complete", 2, c)
+		}()
+		return
+	}
 	prot, c := a.protectDL(ue, 2, cuc)
 	a.downNAS(ue, prot, "ConfigurationUpdateCommand", "after-registration-complete", 2, c)
 }
